@@ -27,6 +27,8 @@ pub enum Ending {
     ConcurrentShutdown,
     /// the thread that owns the last handle panics: the handle is dropped by unwinding
     DropLastByPanic,
+    /// the last two clones are dropped by two threads at the same moment: one of them is the last
+    ConcurrentDropLast,
 }
 
 #[derive(Clone, Copy, Debug, PartialEq, Eq)]
@@ -83,7 +85,108 @@ fn gen_wmode(rng: &mut Rng, case: u64) -> WMode {
     }
 }
 
+/// Many small loggers, each ended by two threads that drop the only two clones of the handle
+/// at the same moment (spin barrier): one of the two drops is the last one, whichever it is, and
+/// once both threads are through every record must be in the file (read while the logger object
+/// itself is still alive, so nothing else can have flushed).
+fn concurrent_drop_case(ctx: &mut CaseCtx) -> CaseResult {
+    use std::sync::atomic::{AtomicUsize, Ordering};
+    let rng = &mut ctx.rng;
+    let wmode = match rng.below(3) {
+        0 => WMode::BufDont(8192),
+        1 => WMode::BufDont(300),
+        _ => WMode::Async { pool: 2, msg: 200, flush_ms: 0 },
+    };
+    let mut res = CaseResult::new(format!("concurrent-drop-of-the-last-clones|{}", wmode.label()));
+    let rounds = if ctx.thorough { 120 } else { 40 };
+    let run = ctx.case;
+    for round in 0..rounds {
+        let dir = ctx.dir.join(format!("r{round}"));
+        let cfg = FlwCfg {
+            names: family::NameCfg {
+                dir: dir.clone(),
+                basename: "cd".into(),
+                discr: None,
+                start_ts: None,
+                suffix: Some("log".into()),
+                naming: family::NamingK::NoRotation,
+            },
+            use_ts: false,
+            crit: None,
+            clean: flw::Clean::Never,
+            clean_bg: false,
+            wmode,
+            crlf: false,
+            append: false,
+            symlink: None,
+            use_utc: false,
+            max_level: log::LevelFilter::Trace,
+            fmt: flw::FmtK::Raw,
+            l2: true,
+        };
+        let (boxed, handle) = match cfg.logger().build() {
+            Ok(x) => x,
+            Err(e) => {
+                res.inconclusive(format!("cannot build the logger: {e:?}"));
+                break;
+            }
+        };
+        let n = 1 + rng.below(3);
+        for s in 0..n {
+            let m = flw::msg_id(run, 0, s, 10);
+            crate::spec::with_rec(log::Level::Info, "flmon::c04", Some("flmon::c04"), &m, |rec| boxed.log(rec));
+        }
+        let mut a = handle;
+        let mut b = a.clone();
+        // handles may carry saved specifications of their own: dropping them takes a moment
+        if round % 2 == 1 {
+            for _ in 0..150 {
+                a.push_temp_spec(flexi_logger::LogSpecification::trace());
+                b.push_temp_spec(flexi_logger::LogSpecification::trace());
+            }
+        }
+        let gate = Arc::new(AtomicUsize::new(0));
+        let mut joins = Vec::new();
+        for h in [a, b] {
+            let g = Arc::clone(&gate);
+            joins.push(std::thread::spawn(move || {
+                g.fetch_add(1, Ordering::SeqCst);
+                while g.load(Ordering::SeqCst) < 2 {
+                    std::hint::spin_loop();
+                }
+                drop(h);
+            }));
+        }
+        for j in joins {
+            let _ = j.join();
+        }
+        let content = std::fs::read(dir.join("cd.log")).unwrap_or_default();
+        res.count("concurrent_drop_rounds", 1);
+        res.count("immediate_reads", 1);
+        match check_stream(&content, run, &[n], b"\n") {
+            Ok(rep) => res.count("lines_checked", rep.lines),
+            Err((kind, detail)) => {
+                res.violate(
+                    "record-left-behind",
+                    format!("C04/{kind}/{}/concurrent-drop-of-the-last-clones", wmode.label()),
+                    format!("round {round}: the only two clones of the handle were dropped by two threads at the same time; right after both drops returned: {detail}"),
+                );
+                drop(boxed);
+                break;
+            }
+        }
+        drop(boxed);
+        let _ = std::fs::remove_dir_all(&dir);
+    }
+    res.absorb_panics("C04", "concurrent drop of the last clones");
+    res.nontrivial = true;
+    res
+}
+
 pub fn run_case(ctx: &mut CaseCtx) -> CaseResult {
+    if ctx.case % 16 == 9 {
+        return concurrent_drop_case(ctx);
+    }
     if ctx.case % 8 == 7 {
         return std_case(ctx);
     }
@@ -99,6 +202,7 @@ pub fn run_case(ctx: &mut CaseCtx) -> CaseResult {
         0..=1 => Ending::Shutdown,
         2..=3 => Ending::Shutdown,
         4 => Ending::DropLastByPanic,
+        5 if rng.chance(1, 2) => Ending::ConcurrentDropLast,
         5 => Ending::DropLast,
         6 if out != Out::Writer => Ending::ConcurrentShutdown,
         _ => Ending::CloneDropContinue,
@@ -401,6 +505,25 @@ pub fn run_case(ctx: &mut CaseCtx) -> CaseResult {
             // the intentional panic is not a finding
             let _ = crate::util::take_panics();
             read_now(&mut res, &next, "immediately after the last handle was dropped by a panicking thread", "");
+        }
+        Ending::ConcurrentDropLast => {
+            // (repeated clone/drop rounds first would only delay the moment; one round per case,
+            // many cases: each thread spins on the barrier and drops at once)
+            let a = handle.take().unwrap();
+            let b = a.clone();
+            let barrier = Arc::new(std::sync::Barrier::new(2));
+            let mut joins = Vec::new();
+            for h in [a, b] {
+                let bar = Arc::clone(&barrier);
+                joins.push(std::thread::spawn(move || {
+                    bar.wait();
+                    drop(h);
+                }));
+            }
+            for j in joins {
+                let _ = j.join();
+            }
+            read_now(&mut res, &next, "immediately after the last two clones were dropped by two threads at the same time", "/concurrent-drop");
         }
         Ending::ConcurrentShutdown => {
             let mut exp_main = next.clone();
@@ -743,7 +866,7 @@ pub fn child_main(a: &ChildArgs) -> i32 {
         Ending::Shutdown | Ending::ConcurrentShutdown | Ending::DropLastByPanic => {
             handle.as_ref().unwrap().shutdown()
         }
-        Ending::DropLast => drop(handle.take()),
+        Ending::DropLast | Ending::ConcurrentDropLast => drop(handle.take()),
         Ending::CloneDropContinue => {
             let c = handle.as_ref().unwrap().clone();
             drop(c);
